@@ -100,6 +100,8 @@ class A:
         name (str): label
     """
     def __init__(self, molecule, spin=None, name=None, shots: int = None):
+        if spin:
+            self.flag = True
         self.spin = spin or molecule.active_spin
         self.name = name or "no_name"
         self.shots = shots if shots else 100
@@ -171,14 +173,31 @@ def falsy_default_findings(tree: ast.AST):
                     texts = {cand, ast.unparse(tg)}
                     if used_as_number(scope if scope is not None else fn, texts):
                         out.append((fn, prefix + fn.name, cand, ast.unparse(v), "used in arithmetic / compared with a number"))
+            # `if p:` / `if not p:` on a parameter documented as a number whose default is None: zero is treated as "not given"
+            dflts = dict(zip([a.arg for a in fn.args.args][-len(fn.args.defaults):] if fn.args.defaults else [], fn.args.defaults))
+            dflts.update({a.arg: d for a, d in zip(fn.args.kwonlyargs, fn.args.kw_defaults) if d is not None})
+            opt_numeric = {p for p in numeric if isinstance(dflts.get(p), ast.Constant) and dflts[p].value is None}
+            for n in ast.walk(fn):
+                if isinstance(n, ast.If):
+                    t = n.test.operand if isinstance(n.test, ast.UnaryOp) and isinstance(n.test.op, ast.Not) else n.test
+                    if isinstance(t, ast.Name) and t.id in opt_numeric:
+                        out.append((fn, prefix + fn.name, t.id, "if " + ast.unparse(n.test) + ":", types.get(t.id, "") + ", default None"))
             visit(fn.body, prefix + fn.name + ".", cls_doc, scope)
     visit(tree.body, "", "")
     return out
 
 
+# truthiness tests of optional numeric parameters that were read and found intended: (file, function, parameter) -> reason
+IF_EXCEPTIONS = {
+    ("tangelo/problem_decomposition/dmet/dmet_problem_decomposition.py", "_oneshot_loop", "n_shots"): "zero shots and no shot number both mean exact evaluation",
+    ("tangelo/toolboxes/qubit_mappings/statevector_mapping.py", "get_vector", "spin"): "spin 0 and no spin both fill the lowest spin-orbitals in interleaved order (alpha first)",
+    ("tangelo/toolboxes/ansatz_generator/hea.py", "__init__", "n_qubits"): "a register of zero qubits is not a register: the number is then derived from the molecule",
+}
+
+
 def check_falsy_defaults(idx: Index, rep, relpaths: Iterable[str], rule: str = "K7.falsy-default") -> int:
     ex = falsy_default_findings(ast.parse(_FALSY_EXAMPLE))
-    if sorted(h for _, _, h, _, _ in ex) != ["shots", "spin"]:
+    if sorted(h for _, _, h, _, _ in ex) != ["shots", "spin", "spin"]:
         raise AnalysisError(f"falsy-default rule self-check failed: built-in example gives {[(q, h) for _, q, h, _, _ in ex]}")
     n = 0
     for rel in relpaths:
@@ -188,6 +207,10 @@ def check_falsy_defaults(idx: Index, rep, relpaths: Iterable[str], rule: str = "
             continue
         for node, qual, p, expr, ty in falsy_default_findings(m.tree):
             n += 1
+            why = IF_EXCEPTIONS.get((m.relpath, qual.split(".")[-1], p)) if expr.startswith("if ") else None
+            if why:
+                rep.ok(rule, (m.relpath, qual), node, text=f"{qual}: `{expr[:70]}` (listed: {why})", what="an argument documented as a number is used as given, zero included")
+                continue
             rep.violation(rule, (m.relpath, qual), node, text=f"{qual}: `{expr[:70]}`", what="an argument documented as a number is used as given, zero included",
                           reason=f"`{p}` ({ty}) is defaulted by truthiness: an explicit {p}=0 is replaced by the fallback")
         rep.ok(rule, (m.relpath, "<module>"), None, text=f"{rel}: numeric arguments are not defaulted by truthiness", what="an argument documented as a number is used as given, zero included",
